@@ -1,7 +1,14 @@
 #!/usr/bin/env python3
-"""Validate the checker both ways (DESIGN.md §2.6): every patch under selftest/mutants must make the
-listed properties fail, every patch under selftest/benign (and the seeded changes under seeded/)
-behaves as recorded.  Scratch copies live under $TMPDIR and are removed immediately."""
+"""Validate the checker both ways (DESIGN.md §2.6 / §14.7).
+
+  selftest/mutants/*.patch   + selftest/expect.json : each must make the listed checks fire
+  seeded/<id>/patch.diff     + meta.json            : each must make the checks listed in meta.checks_that_fire fire
+  selftest/benign/*.patch                           : every check must stay silent
+
+usage: selftest.py [--props C12,C01] [--kind mutants|seeded|benign] [name substring ...]
+Each patch is applied to a scratch worktree of /repo HEAD under $TMPDIR (never inside /repo or /verif);
+the check is pointed at it through VERIF_REPO, with its evidence redirected to a scratch directory; the
+worktree and all build output are removed immediately afterwards.  Exit 0 iff every expectation holds."""
 import json
 import os
 import shutil
@@ -10,14 +17,14 @@ import sys
 import tempfile
 
 HERE = os.path.dirname(os.path.abspath(__file__))
-REPO = os.environ.get('VERIF_REPO', '/repo')
+REPO = os.environ.get('VERIF_REPO_BASE', '/repo')
 
 
 def scratch(patch):
     d = tempfile.mkdtemp(prefix='mmself-')
-    subprocess.run(['git', '-C', REPO, 'worktree', 'add', '-q', '--detach', os.path.join(d, 'w'), 'HEAD'], check=True)
     w = os.path.join(d, 'w')
-    r = subprocess.run(['git', '-C', w, 'apply', patch], capture_output=True, text=True)
+    subprocess.run(['git', '-C', REPO, 'worktree', 'add', '-q', '--detach', w, 'HEAD'], check=True)
+    r = subprocess.run(['git', '-C', w, 'apply', os.path.abspath(patch)], capture_output=True, text=True)
     if r.returncode != 0:
         cleanup(d)
         raise RuntimeError('patch does not apply: %s\n%s' % (patch, r.stderr))
@@ -33,57 +40,93 @@ def cleanup(d):
 
 def run_check(w, pid, tier='quick'):
     ev = tempfile.mkdtemp(prefix='mmself-ev-')
-    env = dict(os.environ, VERIF_REPO=w, VERIF_EVIDENCE_DIR=ev)
+    env = dict(os.environ, VERIF_REPO=w, VERIF_EVIDENCE_DIR=ev, VERIF_NO_SELFTEST='1')
     r = subprocess.run([os.path.join(HERE, 'check'), pid, '--tier', tier], capture_output=True, text=True, env=env)
     shutil.rmtree(ev, ignore_errors=True)
     return r.returncode, r.stdout + r.stderr
 
 
-def builds_and_tests(w, tests=True):
-    env = dict(os.environ, CARGO_NET_OFFLINE='true', CARGO_TARGET_DIR=os.path.join(w, 'target'))
-    r = subprocess.run(['cargo', 'test', '--offline', '--lib'] + ([] if tests else ['--no-run']),
-                       cwd=w, env=env, capture_output=True, text=True)
-    return r.returncode == 0, (r.stdout + r.stderr)[-1500:]
+def claimed():
+    m = json.load(open(os.path.join(HERE, 'MANIFEST.json')))
+    return [c['property_id'] for c in m['checks']]
+
+
+def corpus():
+    """-> list of (kind, name, patch path, expected-to-fire set | None for benign)"""
+    out = []
+    ej = os.path.join(HERE, 'selftest', 'expect.json')
+    if os.path.exists(ej):
+        for e in json.load(open(ej)):
+            out.append(('mutants', os.path.basename(e['patch']), os.path.join(HERE, e['patch']), set(e.get('fails', []))))
+    sd = os.path.join(HERE, 'seeded')
+    if os.path.isdir(sd):
+        for n in sorted(os.listdir(sd)):
+            mf = os.path.join(sd, n, 'meta.json')
+            if os.path.exists(mf):
+                meta = json.load(open(mf))
+                out.append(('seeded', n, os.path.join(sd, n, 'patch.diff'), set(meta.get('checks_that_fire', []))))
+    bd = os.path.join(HERE, 'selftest', 'benign')
+    if os.path.isdir(bd):
+        for n in sorted(os.listdir(bd)):
+            if n.endswith('.patch'):
+                out.append(('benign', n, os.path.join(bd, n), None))
+    return out
+
+
+def validate(props, kinds=None, names=None, verbose=True):
+    """run the given property checks against the corpus; -> (rows, ok)"""
+    rows = []
+    ok = True
+    for kind, name, patch, expect in corpus():
+        if kinds and kind not in kinds:
+            continue
+        if names and not any(x in name for x in names):
+            continue
+        todo = [p for p in props if (expect is None or p in expect)]
+        if not todo:
+            continue
+        d, w = scratch(patch)
+        try:
+            for pid in todo:
+                rc, out = run_check(w, pid)
+                fired = rc == 1 and ('VIOLATION property=%s' % pid) in out
+                if expect is None:
+                    good = rc == 0 and 'VIOLATION' not in out
+                    verdict = 'silent' if good else 'FALSE-ALARM'
+                else:
+                    good = fired
+                    verdict = 'fires' if good else 'MISSED'
+                rows.append({'kind': kind, 'patch': name, 'property': pid, 'verdict': verdict})
+                if not good:
+                    ok = False
+                    if verbose:
+                        print('!! %s %s %s\n%s' % (kind, name, pid, out[-1200:]))
+        finally:
+            cleanup(d)
+    return rows, ok
 
 
 def main():
     args = sys.argv[1:]
-    want = [a for a in args if not a.startswith('-')]
-    with_tests = '--tests' in args
-    table = json.load(open(os.path.join(HERE, 'selftest', 'expect.json')))
-    ok = True
-    rows = []
-    for e in table:
-        name = e['patch']
-        if want and not any(w in name for w in want):
-            continue
-        d, w = scratch(os.path.join(HERE, name))
-        try:
-            if with_tests:
-                good, log = builds_and_tests(w)
-                if not good:
-                    print('!! %s: the patched tree does not build / pass its tests\n%s' % (name, log))
-                    ok = False
-            for pid in e.get('fails', []):
-                rc, out = run_check(w, pid)
-                hit = rc == 1 and 'VIOLATION property=%s' % pid in out
-                if e.get('needle') and e['needle'] not in out:
-                    hit = False
-                rows.append((name, pid, 'fails', 'OK' if hit else 'MISSED'))
-                if not hit:
-                    ok = False
-                    print(out[-1500:])
-            for pid in e.get('passes', []):
-                rc, out = run_check(w, pid)
-                good = rc == 0 and 'VIOLATION' not in out
-                rows.append((name, pid, 'passes', 'OK' if good else 'FALSE-ALARM'))
-                if not good:
-                    ok = False
-                    print(out[-1500:])
-        finally:
-            cleanup(d)
+    props = None
+    kinds = None
+    names = []
+    i = 0
+    while i < len(args):
+        if args[i] == '--props':
+            props = args[i + 1].split(',')
+            i += 2
+        elif args[i] == '--kind':
+            kinds = args[i + 1].split(',')
+            i += 2
+        else:
+            names.append(args[i])
+            i += 1
+    rows, ok = validate(props or claimed(), kinds, names or None)
     for r in rows:
-        print('%-70s %-4s %-7s %s' % r)
+        print('%-8s %-58s %-4s %s' % (r['kind'], r['patch'][:58], r['property'], r['verdict']))
+    n_bad = sum(1 for r in rows if r['verdict'] in ('MISSED', 'FALSE-ALARM'))
+    print('%d expectations, %d not met' % (len(rows), n_bad))
     return 0 if ok else 1
 
 
